@@ -131,7 +131,7 @@ theorem increase_congr (d d' : Int → α) (hdd : ∀ x, 0 ≤ x → x ≤ 1800 
         rw [hdd _ (le_of_lt h2.2) h1]
       · rfl
   unfold increase
-  simp only [this]
+  simp only [this, score_congr d d' hdd]
 
 /-! ### half-life -/
 
@@ -163,45 +163,30 @@ theorem increase_transient (d : Int → α) (s : State α) (p tr : Nat) (t : Int
     (increase d fl s p tr t).1.transient = newTransient d s tr t := by
   unfold increase newTransient; dsimp only; split <;> rfl
 
-omit [IsStrictOrderedRing α] in
-theorem increase_result (d : Int → α) (s : State α) (p tr : Nat) (t : Int) :
-    (increase d fl s p tr t).2 = u32 (u32 (s.persistent + p) + u32 (fl (newTransient d s tr t))) := by
-  unfold increase newTransient; dsimp only; split <;> rfl
+/-- `increase` returns the score at that instant — at full strength, for every transient amount
+    (since fix 8c2b5a5d the function ends with `return s.int(t)`) -/
+theorem increase_returns_score (d : Int → α) (s : State α) (p tr : Nat) (t : Int) :
+    (increase d fl s p tr t).2 = score d fl (increase d fl s p tr t).1 t := rfl
 
-/-- an increase with a transient amount returns exactly the score at that instant -/
-theorem increase_returns_score_partial (d : Int → α) (hd : Decay d) (s : State α) (p tr : Nat) (t : Int)
+/-- with a transient amount the returned score is `persistent + ⌊new transient⌋` (in `uint32`):
+    the clock of the new state is `t`, nothing has decayed yet -/
+theorem increase_result (d : Int → α) (hd : Decay d) (s : State α) (p tr : Nat) (t : Int)
     (h0 : 0 ≤ s.transient) (htr : 0 < tr) :
-    (increase d fl s p tr t).2 = score d fl (increase d fl s p tr t).1 t := by
+    (increase d fl s p tr t).2 = u32 (u32 (s.persistent + p) + u32 (fl (newTransient d s tr t))) := by
   have hn := decayed_nonneg d hd s (elapsed t s.lastUnix) h0
   have h1 : (1 : α) ≤ decayed d s (elapsed t s.lastUnix) + (tr : α) := by
     have : (1 : α) ≤ (tr : α) := by exact_mod_cast htr
     linarith
-  unfold increase score
-  simp only [if_pos htr]
   have he : elapsed t t = 0 := by
     unfold elapsed wrapI; simp
-  simp only [he, Nat.cast_one, hd.zero, mul_one]
+  unfold increase newTransient score
+  simp only [if_pos htr, he, Nat.cast_one, hd.zero, mul_one]
   rw [if_neg]
   intro h
   rcases h with h | h | h
   · exact absurd h1 (not_le.mpr h)
   · omega
   · simp [lifetime] at h
-
-/-- the returned score is the decayed score — at full strength (also for `transient = 0`) -/
-def increase_returns_score_full : Prop :=
-  ∀ (d : Int → ℚ) (s : State ℚ) (p tr : Nat) (t : Int), Decay d → 0 ≤ s.transient → InRange t s.lastUnix →
-    (increase d fl s p tr t).2 = score d fl (increase d fl s p tr t).1 t
-
-/-- F21b: four connection exceptions (transient 80 at t = 1000), one illegal message
-    (persistent 20, transient 0) two hours later: `increase` returns 100, the score is 20 -/
-theorem increase_returns_score_full_refuted : ¬ increase_returns_score_full := by
-  intro h
-  have hd : Decay (fun _ : Int => (1 : ℚ)) := ⟨rfl, fun _ _ => by norm_num, fun _ _ => le_refl _⟩
-  have := h (fun _ => 1) ⟨1000, 80, 0⟩ 20 0 8200 hd (by norm_num) (by unfold InRange; norm_num)
-  have e : elapsed 8200 1000 = 7200 := by unfold elapsed wrapI; norm_num
-  have f80 : fl (80 : ℚ) = 80 := by unfold fl; exact_mod_cast Nat.floor_natCast (R := ℚ) 80
-  simp [increase, score, e, lifetime, u32, two32, f80] at this
 
 /-- each increase raises the score at that instant by at least the added persistent amount —
     provided the `uint32` sums do not wrap -/
@@ -210,35 +195,51 @@ theorem monotone_in_persistent_partial (d : Int → α) (hd : Decay d) (s : Stat
     (hw : s.persistent + p + fl (increase d fl s p tr t).1.transient < two32) :
     score d fl s t + p ≤ (increase d fl s p tr t).2 := by
   rw [increase_transient] at hw
-  -- the returned value without wrap
-  have hret : (increase d fl s p tr t).2 = s.persistent + p + fl (newTransient d s tr t) := by
-    rw [increase_result, u32_id (n := s.persistent + p) (by omega), u32_id (n := fl _) (by omega), u32_id (by omega)]
-  rw [hret]
-  -- the score before is at most persistent + ⌊transient·d⌋ ≤ persistent + ⌊new transient⌋
-  unfold score
-  simp only [elapsed_eq hr, lifetime, Nat.cast_one]
-  split
-  · omega
-  · rename_i hc
-    simp only [not_or, not_lt] at hc
-    have hdle := hd.le_one _ hc.2.1
-    have hdpos := hd.pos _ hc.2.1
-    have key : fl (s.transient * d (t - s.lastUnix)) ≤ fl (newTransient d s tr t) := by
-      apply Nat.floor_le_floor
-      unfold newTransient
-      simp only [elapsed_eq hr]
-      split
-      · rename_i htr
+  by_cases htr : 0 < tr
+  · -- a transient amount was added: the result is persistent + p + ⌊new transient⌋
+    have hret : (increase d fl s p tr t).2 = s.persistent + p + fl (newTransient d s tr t) := by
+      rw [increase_result d hd s p tr t h0 htr, u32_id (n := s.persistent + p) (by omega),
+        u32_id (n := fl _) (by omega), u32_id (by omega)]
+    rw [hret]
+    unfold score
+    simp only [elapsed_eq hr, lifetime, Nat.cast_one]
+    split
+    · omega
+    · rename_i hc
+      simp only [not_or, not_lt] at hc
+      have hdle := hd.le_one _ hc.2.1
+      have hdpos := hd.pos _ hc.2.1
+      have key : fl (s.transient * d (t - s.lastUnix)) ≤ fl (newTransient d s tr t) := by
+        apply Nat.floor_le_floor
+        unfold newTransient
+        simp only [elapsed_eq hr, if_pos htr]
         have : (0 : α) ≤ (tr : α) := Nat.cast_nonneg _
         unfold decayed
         rw [if_neg (by simp only [lifetime]; omega)]
         split
         · linarith
         · nlinarith
-      · nlinarith
-    have := u32_le (s.persistent + u32 (fl (s.transient * d (t - s.lastUnix))))
-    have := u32_le (fl (s.transient * d (t - s.lastUnix)))
-    omega
+      have := u32_le (s.persistent + u32 (fl (s.transient * d (t - s.lastUnix))))
+      have := u32_le (fl (s.transient * d (t - s.lastUnix)))
+      omega
+  · -- only the persistent part changes: the same decayed transient is added to persistent + p
+    have hnt : newTransient d s tr t = s.transient := by unfold newTransient; rw [if_neg htr]
+    rw [hnt] at hw
+    have hs' : (increase d fl s p tr t).1 = { s with persistent := u32 (s.persistent + p) } := by
+      unfold increase; simp only [if_neg htr]
+    rw [increase_returns_score, hs']
+    unfold score
+    simp only [elapsed_eq hr, lifetime, Nat.cast_one]
+    rw [u32_id (n := s.persistent + p) (by omega)]
+    split
+    · omega
+    · rename_i hc
+      simp only [not_or, not_lt] at hc
+      have hdle := hd.le_one _ hc.2.1
+      have hle : fl (s.transient * d (t - s.lastUnix)) ≤ fl s.transient := by
+        apply Nat.floor_le_floor; nlinarith
+      rw [u32_id (n := fl _) (by omega), u32_id (n := s.persistent + _) (by omega), u32_id (by omega)]
+      omega
 
 /-- … at full strength (no side condition) -/
 def monotone_in_persistent_full : Prop :=
@@ -250,8 +251,7 @@ theorem monotone_in_persistent_full_refuted : ¬ monotone_in_persistent_full := 
   intro h
   have hd : Decay (fun _ : Int => (1 : ℚ)) := ⟨rfl, fun _ _ => by norm_num, fun _ _ => le_refl _⟩
   have := h (fun _ => 1) ⟨0, 0, 4294967295⟩ 1 0 10 hd (by norm_num) (by decide) (by decide) (by unfold InRange; norm_num)
-  have f0 : fl (0 : ℚ) = 0 := by unfold fl; simp
-  simp [increase, score, u32, two32, f0] at this
+  simp [increase, score, u32, two32] at this
 
 /-- the persistent part is the `uint32` sum of the added amounts, untouched by time -/
 theorem increase_persistent (d : Int → α) (s : State α) (p tr : Nat) (t : Int) :
@@ -488,6 +488,11 @@ example : GoodFrom dReal (zero : State ℝ) [⟨0, 20, 1600000000⟩, ⟨20, 0, 
   refine ⟨?_, Or.inr ⟨by norm_num, Or.inr ?_⟩, trivial⟩
   · unfold InRange; rw [l2]; norm_num
   · rw [l2]; norm_num
+/-- the F21b witness (repaired by 8c2b5a5d): transient 80 stored at t = 1000, one illegal message
+    (persistent 20, transient 0) two hours later now returns 20, the documented score -/
+example : (increase (fun _ : Int => (1 : ℚ)) fl ⟨1000, 80, 0⟩ 20 0 8200).2 = 20 := by
+  have e : elapsed 8200 1000 = 7200 := by unfold elapsed wrapI; norm_num
+  simp [increase, score, e, lifetime, u32, two32]
 example : InRange 1600000060 1600000000 := by unfold InRange; norm_num
 
 end BytomModel.Props.C35
